@@ -416,7 +416,9 @@ pub fn run_validate(ctx: &mut Ctx) {
                 let n_hint = v.split(" n=").nth(1).and_then(|s| s.split(' ').next()).and_then(|s| s.parse::<usize>().ok());
                 match independent_root(obj, n_hint) {
                     Some((root, _)) if root == *h => {}
-                    _ => ctx.fail("C08", &format!("unsound-accept-{name}"), format!("{name} validator accepted a {class} input whose recomputed hash is not h"), replay.to_string()),
+                    _ => { ctx.fail("C08", &format!("unsound-accept-{name}"), format!("{name} validator accepted a {class} input whose recomputed hash is not h"), replay.to_string());
+                           // C06: "the uploader's xorb hash equals what both xorb validators recompute from the bytes"
+                           ctx.fail("C06", &format!("validator-hash-differs-from-producer-{name}"), format!("{name} validator accepted a {class} input under a hash that the producer's cas_node_hash of its decoded chunks does not give"), replay.to_string()); }
                 }
             }
         }
